@@ -68,16 +68,18 @@ theorem newNode_evalLit (orc : Oracle) (hneg : NegInvolutive orc) (v : FVal) (nn
   | complex r =>
     simp only [newNode] at h
     split at h
+    · simp at h
     · split at h
-      · rename_i k hk
-        split at h
-        · rename_i r' hr'
-          simp only [Option.some.injEq] at h; subst h
-          simp only [evalLit, operandVal, Option.bind_some, negVal]
-          exact hneg r k r' hk hr'
+      · split at h
+        · rename_i k hk
+          split at h
+          · rename_i r' hr'
+            simp only [Option.some.injEq] at h; subst h
+            simp only [evalLit, operandVal, Option.bind_some, negVal]
+            exact hneg r k r' hk hr'
+          · simp at h
         · simp at h
-      · simp at h
-    · simp only [Option.some.injEq] at h; subst h; simp [evalLit, operandVal]
+      · simp only [Option.some.injEq] at h; subst h; simp [evalLit, operandVal]
 
 /-- One folding step preserves the value of the expression (and its being an error). -/
 theorem foldBinOp_value (t : PrecTable) (sp : Spacing) (orc : Oracle) (hneg : NegInvolutive orc)
